@@ -101,7 +101,8 @@ def gen_schedules(rng, n, faulting=()):
     out = []
     U = list(range(UNIVERSE))
     for _ in range(n):
-        kind = weighted(rng, [("perm", 3), ("repeats", 3), ("split", 3), ("reject_then_dense", 2), ("long", 1), ("per_process", 1)])
+        kind = weighted(rng, [("perm", 3), ("repeats", 3), ("split", 3), ("reject_then_dense", 2), ("long", 1), ("per_process", 1),
+                              ("store_faults", 3)])
         if kind == "perm":
             ids = U[:]
             rng.shuffle(ids)
@@ -121,6 +122,14 @@ def gen_schedules(rng, n, faulting=()):
             for _ in range(rng.randrange(6, 30)):
                 ids.append(rng.choice(U))
             segs = [ids]
+        elif kind == "store_faults":
+            # the event store fails a retrieval of some deliveries (an event lacks a collection): whatever the job does
+            # with that event (C06 judges it), the events after it must come out as they do alone
+            ids = [rng.choice(U) for _ in range(rng.randrange(8, 40))]
+            segs = [ids]
+            faults = {str(p): rng.random() for p in range(len(ids)) if rng.random() < 0.2}
+            out.append({"kind": kind, "segments": segs, "faults": faults})
+            continue
         else:
             segs = [[rng.choice(U) for _ in range(200)]]
         out.append({"kind": kind, "segments": segs})
@@ -144,12 +153,22 @@ def make_case(prop, tier, seed, i):
     hrng = run_rng(NAME, seed, i, "history")
     if hrng.random() < 0.35:
         for _ in range(hrng.choice([1, 1, 2])):
-            kind = hrng.choice(["other_backend", "same_executor", "same_executor_replaced", "replaced"])
+            kind = hrng.choice(["other_backend", "same_executor", "same_executor_replaced", "replaced", "same_object", "shared_base"])
             if kind == "other_backend":
                 ob = hrng.choice([b for b in BACKENDS if b != backend])
                 case["pre"].append({"backend": ob, "query": qgen.generate(hrng, ob), "same_executor": False})
             elif kind == "same_executor":
                 case["pre"].append({"backend": backend, "query": qgen.generate(hrng, backend), "same_executor": True})
+            elif kind == "same_object":
+                # the very same query object is translated twice (ds...value() called again)
+                case["pre"].append({"backend": backend, "query": q, "same_executor": False, "share": True})
+            elif kind == "shared_base":
+                # another query built on the same base stream (first step) as the query under test
+                q2 = copy.deepcopy(q)
+                q2["steps"] = q["steps"][:1] + ([["Select", "lambda zz: 1"]] if q["steps"][0][0] == "Where" else [])
+                if len(q2["steps"]) == 1 and q2["steps"][0][0] == "SelectMany":
+                    q2["steps"].append(["Select", "lambda zz: zz.pt()"])
+                case["pre"].append({"backend": backend, "query": q2, "same_executor": False, "share": True})
             else:
                 case["pre"].append({"backend": backend, "query": qgen.replaced_collection_query(hrng, backend),
                                     "same_executor": kind == "same_executor_replaced"})
@@ -165,17 +184,19 @@ def translate_and_build(case, work):
     pkg = os.path.join(work, "pkg")
     os.makedirs(pkg)
     exe = xlate.executor_class(case["backend"])()
+    streams = {}
+    share_main = any(p.get("share") for p in case.get("pre") or [])
     for n, pre in enumerate(case.get("pre") or []):
         pdir = os.path.join(work, f"pre{n}")
         os.makedirs(pdir)
         try:
             pe = exe if pre["same_executor"] and pre["backend"] == case["backend"] else xlate.executor_class(pre["backend"])()
-            pe.write_cpp_files(pe.apply_ast_transformations(xlate.build_ast(pre["query"])), Path(pdir))
+            pe.write_cpp_files(pe.apply_ast_transformations(xlate.build_ast(pre["query"], streams if pre.get("share") else None)), Path(pdir))
         except Exception:  # noqa - a failed earlier query is a legitimate history too
             pass
         shutil.rmtree(pdir, ignore_errors=True)
     try:
-        a = xlate.build_ast(q)
+        a = xlate.build_ast(q, streams if share_main else None)
         exe.write_cpp_files(exe.apply_ast_transformations(a), Path(pkg))
     except Exception as e:  # noqa
         return None, "rejected", f"{type(e).__name__}: {str(e)[:200]}"
@@ -209,7 +230,7 @@ def canonical(exe, case, work):
     return rc, dels, segs, err
 
 
-def play(exe, case, sched, work, tag):
+def play(exe, case, sched, work, tag, nret=None):
     if sched["kind"] == "per_process":
         dels = []
         rcs = []
@@ -221,9 +242,17 @@ def play(exe, case, sched, work, tag):
             rcs.append(rc)
         return (0 if all(r == 0 for r in rcs) else rcs), dels, ""
     lines = [f"SEED {case['event_seed']}"]
+    pos = 0
+    faults = sched.get("faults") or {}
     for seg in sched["segments"]:
         lines.append("SEGMENT")
-        lines += [f"EVENT {k}" for k in seg]
+        for k in seg:
+            f = faults.get(str(pos))
+            if f is not None and nret and nret.get(k):
+                lines.append(f"EVENT {k} {int(f * nret[k])}")
+            else:
+                lines.append(f"EVENT {k}")
+            pos += 1
     rc, out, err = build.run_schedule(exe, lines, work, tag=tag)
     dels, _ = build.parse_output(out)
     return rc, dels, err
@@ -242,13 +271,14 @@ def _c05(case, exe, work, res):
         res["log"].append({"canonical": "died", "rc": rc, "err": err[-200:]})
         return
     outcome = {d["id"]: outcome_of(d) for d in dels}
+    nret = {d["id"]: len(d["retrievals"]) for d in dels}
     n_rows = sum(len(o[1]) for o in outcome.values() if o[0] == "rows")
     n_fault = sum(1 for o in outcome.values() if o[0] == "fault")
     bump("events_with_rows", sum(1 for o in outcome.values() if o[0] == "rows" and o[1]))
     bump("fault:query_level_fault_events", n_fault)
     res["log"].append({"canonical_rows": n_rows, "faulting_events": n_fault})
     for si, sched in enumerate(case["schedules"]):
-        rc, dels, err = play(exe, case, sched, work, f"s{si}")
+        rc, dels, err = play(exe, case, sched, work, f"s{si}", nret)
         bump("schedules")
         bump("deliveries", len(dels))
         bump("reach:schedule_" + sched["kind"])
@@ -262,6 +292,13 @@ def _c05(case, exe, work, res):
         seen_fault = False
         for pos, d in enumerate(dels):
             got = outcome_of(d)
+            if d["failed_retrieval"] is not None:
+                # the store failed a retrieval of this delivery: its own outcome is C06's business, not compared here
+                bump("fault:store_failed_retrieval_inside_schedule")
+                if d["status"] == "OK":
+                    bump("reach:job_continued_after_failed_retrieval")
+                prev = d["id"]
+                continue
             if got != outcome[d["id"]]:
                 viols.append({"property": "C05", "invariant": "event-outcome-depends-on-history", "schedule": si, "position": pos,
                               "detail": f"schedule {si} ({sched['kind']}) delivery {pos} of event {d['id']} (after event {prev}): "
@@ -273,8 +310,8 @@ def _c05(case, exe, work, res):
             prev = d["id"]
         else:
             # row conservation over the whole schedule
-            exp_rows = sorted(r for k in expected_ids if outcome[k][0] == "rows" for r in outcome[k][1])
-            got_rows = sorted(r for d in dels if d["status"] == "OK" for r in d["rows"])
+            exp_rows = sorted(r for d in dels if d["failed_retrieval"] is None and outcome[d["id"]][0] == "rows" for r in outcome[d["id"]][1])
+            got_rows = sorted(r for d in dels if d["status"] == "OK" and d["failed_retrieval"] is None for r in d["rows"])
             if exp_rows != got_rows:
                 viols.append({"property": "C05", "invariant": "row-conservation", "schedule": si,
                               "detail": f"schedule {si}: multiset of rows differs from the union of per-event outcomes"})
@@ -467,27 +504,37 @@ def shrink(case, fails):
             c2["schedules"] = [c["schedules"][si]]
             if fails(c2):
                 c = c2
-        # shrink the one schedule: flatten to a list of (segment break | event)
+        # shrink the one schedule: flatten to a list of (segment break | [event, store-fault fraction or None])
         sched = c["schedules"][0]
+        faults = sched.get("faults") or {}
         flat = []
+        pos = 0
         for seg in sched["segments"]:
             flat.append("|")
-            flat.extend(seg)
+            for k in seg:
+                flat.append([k, faults.get(str(pos))])
+                pos += 1
 
         def to_case(fl):
-            segs = []
+            segs, fl_faults, p = [], {}, 0
             for x in fl:
                 if x == "|" or not segs:
                     segs.append([])
                 if x != "|":
-                    segs[-1].append(x)
-            segs = [s for s in segs if s]
+                    segs[-1].append(x[0])
+                    if x[1] is not None:
+                        fl_faults[str(p)] = x[1]
+                    p += 1
+            segs = [s_ for s_ in segs if s_]
             c3 = copy.deepcopy(c)
-            c3["schedules"] = [{"kind": "perm" if sched["kind"] != "per_process" else "per_process", "segments": segs}]
+            kind = "per_process" if sched["kind"] == "per_process" else "store_faults" if fl_faults else "perm"
+            c3["schedules"] = [{"kind": kind, "segments": segs, "faults": fl_faults}]
             return c3
 
         fl = ddmin_list(flat, lambda f: any(x != "|" for x in f) and fails(to_case(f)))
-        c = to_case(fl)
+        c4 = to_case(fl)
+        if fails(c4):
+            c = c4
         # reduce the query: one column alone, without the event-level filter
         cols = c["query"].get("cols")
         if cols and len(c["query"]["steps"]) <= 2:
